@@ -18,6 +18,9 @@ CLAIMED = {
  "C11": ("reference-model monitor: every observation of a real MultitaskMultivariateNormal mapped into a layout-free joint; index expressions enumerated",
          "Runtime monitoring at the distribution's public boundary: mean, variance, log_prob (fast and Cholesky), rsample with base samples (affine, L L^T = joint), to_data_independent_dist, the three constructors over every valid task_dim, and d[idx] for every (point index, task index) pair from enumerated candidate sets (negative ints, slices with any start/stop/step incl. out-of-range, index tensors, batch indices, Ellipsis) are compared with a canonical joint built from the dense covariance and the declared layout, for n != t, both layouts, batch shapes. Decides executed cells only (thorough: all pairs on six shapes).",
          "Trusts torch dense algebra and the oracle's own index arithmetic on an arange position tensor (torch indexing semantics).", "DESIGN.md §4 C11"),
+ "C10": ("reference-model monitor: every public method of the real MultivariateNormal vs dense float64 algebra; index expressions enumerated; sample moments statistically",
+         "Runtime monitoring at the distribution's public boundary: log_prob on the fast and the Cholesky path over broadcastable (distribution batch, mean batch, value batch) triples and eight covariance representations; closed-form KL incl. identical arguments; rsample(base_samples) as an affine map with L L^T = Sigma recovered from basis vectors; variance/stddev/confidence_region/min-variance floor; +,*,/ scalars, sums, expand, unsqueeze, add_jitter; d[idx] as the marginal for enumerated index expressions over shapes (N),(b,N),(b1,b2,N); thorough tier adds 200k-sample moment checks (6 s.e.). Decides executed cells only.",
+         "Trusts torch dense algebra; repeated-entry batch index tensors combined with an int event index are read as independent batch copies (the library's batch semantics).", "DESIGN.md §4 C10"),
 }
 NOT_YET = "check not built yet in this round (see DESIGN.md §9 build order); not claimed until its monitor exists and is silent on the unchanged tree"
 
